@@ -171,7 +171,7 @@ func c11MultiTree() fsmodel.Tree {
 	return multi
 }
 
-func judgeC11(c c11Case) (string, string) {
+func judgeC11Raw(c c11Case) (string, string) {
 	root := scratch.Dir("view")
 	defer scratch.Remove(root)
 	srcDir, dst := filepath.Join(root, "src"), filepath.Join(root, "dst")
@@ -595,3 +595,13 @@ func replayC11(raw json.RawMessage) string {
 }
 
 func sizeOfHas(m map[string]int64, p string) bool { _, ok := m[p]; return ok }
+
+// judgeC11 is judgeC11Raw with a panic of the code under test turned into a verdict (never a crash of the check).
+func judgeC11(c c11Case) (k, m string) {
+	defer func() {
+		if r := recover(); r != nil {
+			k, m = "panic", fmt.Sprintf("the code under test panicked: %v", r)
+		}
+	}()
+	return judgeC11Raw(c)
+}
